@@ -459,6 +459,13 @@ class IntegerFieldFormat(AbstractFieldFormat):
                         % (_compat.text_repr(field_name), self.length)
                     )
                 length = ranges.Range("1...%d" % self.length.upper_limit)
+            # Python refuses to convert longer texts to an integer number, see sys.get_int_max_str_digits().
+            maximum_length = getattr(sys, "get_int_max_str_digits", lambda: 0)() or 4300
+            if (length.upper_limit is not None) and (length.upper_limit > maximum_length):
+                raise errors.InterfaceError(
+                    "length of integer field %s must be at most %d but is: %s"
+                    % (_compat.text_repr(field_name), maximum_length, self.length)
+                )
             try:
                 length_range = ranges.create_range_from_length(length)
             except (errors.RangeValueError, OverflowError) as error:
